@@ -2,6 +2,7 @@ package main
 
 import (
 	"fmt"
+	"os"
 	"go/token"
 	"go/types"
 	"sort"
@@ -11,6 +12,20 @@ import (
 )
 
 // ---------- candidate generation ----------
+
+// isSlotInt: integer types that can hold an offset or a length (≥ 32 bits). Narrower
+// integers (bytes, codes) are not drawn into contract templates.
+func isSlotInt(t types.Type) bool {
+	b, ok := t.Underlying().(*types.Basic)
+	if !ok || b.Info()&types.IsInteger == 0 {
+		return false
+	}
+	switch b.Kind() {
+	case types.Int8, types.Uint8, types.Int16, types.Uint16:
+		return false
+	}
+	return true
+}
 
 func mkCand(kind candKind, key, desc string, l Lin, ok bool) *cand {
 	if !ok {
@@ -28,7 +43,7 @@ func candLeq(kind candKind, a, b Lin, desc string) *cand {
 func paramSlots(fn *ssa.Function) (ints, lens []string, names map[string]string) {
 	names = map[string]string{}
 	for i, p := range fn.Params {
-		if isIntType(p.Type()) {
+		if isSlotInt(p.Type()) {
 			s := fmt.Sprintf("P%d", i)
 			ints = append(ints, s)
 			names[s] = p.Name()
@@ -92,7 +107,7 @@ func (e *bndEngine) genPrePost(fn *ssa.Function) {
 	var post []*cand
 	res := fn.Signature.Results()
 	for j := 0; j < res.Len(); j++ {
-		if !isIntType(res.At(j).Type()) {
+		if !isSlotInt(res.At(j).Type()) {
 			continue
 		}
 		r := fmt.Sprintf("R%d", j)
@@ -105,6 +120,11 @@ func (e *bndEngine) genPrePost(fn *ssa.Function) {
 		for _, s := range lens {
 			add(&post, candLeq(candPost, linAtom(r), linAtom(s), rn+" ≤ "+names[s]))
 		}
+		// results related to the receiver's length-bearing fields as they are on return
+		for _, s := range flens {
+			g := strings.Replace(s, "F:", "G:", 1)
+			add(&post, candLeq(candPost, linAtom(r), linAtom(g), rn+" ≤ "+names[s]+" on return"))
+		}
 	}
 	e.post[fn] = post
 }
@@ -113,7 +133,7 @@ func (e *bndEngine) genPrePost(fn *ssa.Function) {
 func (e *bndEngine) genInv(ts *trackedStruct) {
 	var ints, lens []string
 	for _, f := range ts.fields {
-		if isIntType(f.Type()) {
+		if isSlotInt(f.Type()) {
 			ints = append(ints, "F:"+f.Name())
 		} else if hasLen(f.Type()) {
 			lens = append(lens, "len(F:"+f.Name()+")")
@@ -360,7 +380,7 @@ func (c *fnCtx) genBlockCands() {
 				}
 				// join-local strict relations (not struct invariants: they need not hold at exit)
 				for fi, f := range c.tracked.fields {
-					if !isIntType(f.Type()) || c.unstableField(fi) {
+					if !isSlotInt(f.Type()) || c.unstableField(fi) {
 						continue
 					}
 					a, ok := c.fieldValue(fi, st[fi])
@@ -727,6 +747,12 @@ func (e *bndEngine) run() *bndResult {
 							}
 							l, ok := substLin(cd.L, bindS, false)
 							if !ok || !c.proveAt(b, len(b.Instrs)-1, Ineq{l, ""}) {
+								if t := os.Getenv("SECSCHECK_BND_TRACE"); t != "" && strings.Contains(cd.desc, t) {
+									fmt.Printf("TRACE kill %q at return %s of %s: goal %s ≤ 0 (subst ok=%v) state=%v\n", cd.desc, w.Pos(ret.Pos()), fn.Name(), l.String(), ok, c.verAt[ret])
+									for _, q := range c.factsAt(b, len(b.Instrs)-1).ineqs {
+										fmt.Printf("    fact %s   [%s]\n", q.String(), q.Why)
+									}
+								}
 								kill(cd, "not re-established at return "+w.Pos(ret.Pos())+" of "+fn.Name())
 							}
 						}
